@@ -26,8 +26,19 @@ import (
 
 const (
 	verifDir = "/verif"
-	repoDir  = "/repo"
 )
+
+// repoDir is the tree under test.  It is /repo; the seeding tools point
+// VERIF_REPO at a scratch worktree to try a changed tree without touching
+// /repo (such runs write no evidence).
+var repoDir = func() string {
+	if d := os.Getenv("VERIF_REPO"); d != "" {
+		return d
+	}
+	return "/repo"
+}()
+
+func altRepo() bool { return repoDir != "/repo" }
 
 type propInfo struct {
 	Level     string
@@ -344,11 +355,24 @@ func buildWorker(wd string, race bool) (string, error) {
 		return "", err
 	}
 	// go.sum of the repository may have changed with the working tree
-	if b, err := os.ReadFile(filepath.Join(repoDir, "go.sum")); err == nil {
+	if b, err := os.ReadFile(filepath.Join(repoDir, "go.sum")); err == nil && !altRepo() {
 		os.WriteFile(filepath.Join(verifDir, "go.sum"), b, 0o644)
 	}
 	bin := filepath.Join(wd, "worker")
 	args := []string{"build", "-tags", "verif", "-overlay", ov, "-o", bin}
+	if altRepo() {
+		// the module replacement has to point at the other tree
+		gm, err := os.ReadFile(filepath.Join(verifDir, "go.mod"))
+		if err != nil {
+			return "", err
+		}
+		mf := filepath.Join(wd, "alt.mod")
+		os.WriteFile(mf, bytes.Replace(gm, []byte("=> /repo"), []byte("=> "+repoDir), 1), 0o644)
+		if gs, err := os.ReadFile(filepath.Join(verifDir, "go.sum")); err == nil {
+			os.WriteFile(filepath.Join(wd, "alt.sum"), gs, 0o644)
+		}
+		args = append(args, "-modfile", mf)
+	}
 	if race {
 		args = append(args, "-race")
 	}
@@ -422,6 +446,9 @@ func writeEvidence(prop, tier string, seed int64, info propInfo, m *core.Report,
 	cov["explanation"] = "every count is measured by this run; 'states' are distinct state keys summed over scenarios/workers, 'transitions' are scheduling points or operations executed on the real code, 'traces_validated_against_impl' = executions of the real code (there is no separate model to conform to: the implementation itself is explored)"
 	e := ev{PropertyID: prop, Tier: tier, Seed: seed, Level: info.Level, Coverage: cov, Assumptions: info.Assume, WallS: wall, Violations: nviol}
 	b, _ := json.MarshalIndent(e, "", " ")
+	if altRepo() {
+		return
+	}
 	os.MkdirAll(filepath.Join(verifDir, "evidence"), 0o755)
 	os.WriteFile(filepath.Join(verifDir, "evidence", prop+".json"), b, 0o644)
 }
